@@ -70,7 +70,8 @@ class C13(Prop):
                     out.append({"stream": st, "tag": "exh:" + st, "input": {"d": d, "row": row, "eol": eol}})
         for _ in range(nrand):
             d = rng.choice(DELIMS)
-            al = alphabet(d) + ["b", "€"]
+            # 'ｱ' (U+FF71) and '\ufeff' encode with the lead byte 0xEF, the first byte of the UTF-8 byte-order mark
+            al = alphabet(d) + ["b", "€", "ｱ", "\ufeff"]
             row = ["".join(rng.choice(al) for _ in range(rng.choice([0, 1, 2, 3, 5, 8])))
                    for _ in range(rng.randint(1, 5))]
             eol = rng.choice(["", "\n", "\r\n"])
